@@ -84,6 +84,9 @@ def check(run):
     _C02.parser_lifetime(R, RID='C06.activate')      # compression is switched on in the running parser, not in a new one
     from . import C01
     C01.alias(R, RID='C06.tail')     # inflate input / output never alias the reused receive buffer
+    with R.as_rule('C06.tail'):
+        C01.conserve(R)              # the inflater is fed every fragment of the message, the (empty) first one that carries
+        C01.join(R)                  # RSV1 included: no frame is dropped or queued twice on the way to Message.build
 
 
 def parse_ext(R, RID='C06.parse'):
